@@ -61,6 +61,7 @@ static Opt opt_k(const std::string &k, bool lng = false) { return {"k:" + hexs(k
 static Opt opt_c(const std::string &v) { return {"c:" + hexs(v), {"--cmode", v}}; }
 static Opt opt_h(const std::string &v) { return {"H:" + hexs(v), {"--hmode", v}}; }
 
+static void restore_scratch_simple() { DIR *d = opendir("."); if (d) { struct dirent *e; std::vector<std::string> del; while ((e = readdir(d))) { std::string n = e->d_name; if (n.size() > 4 && (n.rfind(".wenc") == n.size() - 5 || n.compare(0, 3, "out") == 0)) del.push_back(n); } closedir(d); for (auto &n : del) unlink(n.c_str()); } }
 static long g_vectors = 0;
 static void vector_case(const std::vector<Opt> &opts) {
   g_vectors++;
@@ -223,7 +224,8 @@ static void suite_argvhist(Rng &rng) {
   const std::vector<std::string> bad = {"-x", "-Z", "-:", "-;", "--bogus", "--bogus=1", "--ver", "--v", "--", "-", "--=x", "--encode=1", "--help=", "-m", "-m1", "-eZ", "-eZq", "-edv", "-dve", "-ved", "-nZe", "-eex", "-e:", "--cmode", "--key", "-k", "-i", "-o", "--c", "--h", "--hm", "--cm", "--o", "--i", "--k", "--ke"};
   const std::vector<std::string> ins = {in_ok, in2, "nope.txt", inlong, "", "out.bin", inpct, inpct2};
   const std::vector<std::string> outs = {"out.bin", "out2", "sub/y", "nodir/x", "", in_ok, "-e"};
-  const std::vector<std::string> keys = {KEY_OK, KEY2, "not-a-key", "short", "ABEiM0RVZneImaq7zN3u/w=", ""};
+  const std::vector<std::string> keys = {KEY_OK, KEY2, "not-a-key", "short", "ABEiM0RVZneImaq7zN3u/w=", "", std::string(" ") + KEY_OK, std::string("  ") + KEY_OK, std::string("\t") + KEY_OK, std::string(KEY_OK) + " ", std::string(KEY_OK) + "\n",
+    "ABEiM0RVZneImaq7zN3u/ww==", "ABEiM0RVZneImaq7zN3u/www==", "ABEiM0RVZneImaq7zN3u/wwww==", "ABEiM0RVZneImaq7zN3u/w===", "=BEiM0RVZneImaq7zN3u/w=="};
   const std::vector<std::string> nums = {"0", "1", "2", "3", "4", "5", "9", "-1", " 2", "2x", "", "256", "+1", "99999999999999999999", "-99999999999999999999", "4294967297", "1e0", "0x2"};
   auto pick = [&](const std::vector<std::string> &v) { return v[rng.below((uint32_t)v.size())]; };
   auto with_arg = [&](std::vector<std::string> &out, const std::string &sh, const std::vector<std::string> &longs, const std::string &val) {
@@ -485,6 +487,22 @@ static void suite_intact(Rng &rng) {
   emitI("intact", "runs", S(runs));
 }
 
+// ---- C16 at the command line: what `-k` accepts is exactly a 24-character RFC 4648 key, decoded into the 16-byte buffer (ASan guards it)
+static void suite_keyargs(Rng &rng) {
+  std::string in_ok = "in.txt"; write_file(in_ok, rng.buf(30));
+  std::vector<std::string> ks = {KEY_OK, KEY2, std::string(" ") + KEY_OK, std::string("  ") + KEY_OK, std::string("\t") + KEY_OK, std::string(KEY_OK) + " ", std::string(KEY_OK) + "\r\n", std::string(" ") + KEY_OK + " ",
+    "ABEiM0RVZneImaq7zN3u/ww==", "ABEiM0RVZneImaq7zN3u/www==", "ABEiM0RVZneImaq7zN3u/wwww==", "ABEiM0RVZneImaq7zN3u/wwwww==", "ABEiM0RVZneImaq7zN3u/w=", "ABEiM0RVZneImaq7zN3u/w", "ABEiM0RVZneImaq7zN3u/w===", "ABEiM0RVZneImaq7zN3u=w==", "ABEi M0RVZneImaq7zN3u/w==", "", "=", "=="};
+  for (int i = 0; i < 40; i++) { std::string k(24, 'A'); static const char *al = "ABCDEFGHIJKLMNOPQRSTUVWXYZabcdefghijklmnopqrstuvwxyz0123456789+/= \t-_"; for (auto &c : k) c = al[rng.below(69)]; if (i % 2) { k[22] = '='; k[23] = '='; } ks.push_back(k); }
+  long n = 0;
+  for (auto &k : ks) for (int md = 0; md < 2; md++) { n++;
+    std::vector<Opt> o = { md ? Opt{"d", {"-d"}} : Opt{"e", {"-e"}}, opt_i(in_ok, true), opt_k(k, md == 1), opt_o("out.bin", true) };
+    std::vector<std::string> args; std::string toks; for (auto &x : o) { for (auto &w : x.argv) args.push_back(w); toks += " " + x.tok; }
+    trace_case("keyargs", "key argument [" + k + "]");
+    std::string real = real_parse(args, true); restore_scratch_simple();
+    emitM("keyargs", "cli 1" + toks, real); }
+  emitI("keyargs", "key_arguments", S(n));
+}
+
 int main(int argc, char **argv) {
   proto_init();
   long seed = env_long("VERIF_SEED", 1);
@@ -502,6 +520,7 @@ int main(int argc, char **argv) {
   if (which == "parsehist") suite_parsehist(rng);
   if (which == "argvhist") suite_argvhist(rng);
   if (which == "intact") suite_intact(rng);
+  if (which == "keyargs") suite_keyargs(rng);
   fflush(g_proto);
   if (chdir("/") != 0) return 2;
   std::string cmd = "rm -rf '" + scratch + "'"; int rc = system(cmd.c_str()); (void)rc;
